@@ -115,6 +115,17 @@ CHECKS['C03'] = dict(
          'by the trace specification with wrappers on iter_chunks and NpyWriter.append.',
     design_ref='4 (C03)', technique='TLA+/TLC model checking + exhaustive spec-to-code replay + trace validation',
     note=_NOTE + ' TemplateModel.get_waveforms (store vs raw) is exercised under C10.')
+CHECKS['C18'] = dict(
+    text='Serialization.tla: tagged value trees; TLC proves Decode o Encode = Normalize (integer keys incl. '
+         'negative ones, arrays over 6 dtypes x 3 memory layouts x 9 shapes around the ten-item threshold, '
+         'NumPy scalars, nested lists/dicts) and ReadTsv o WriteTsv = rows at the written precision with '
+         'the requested first column first and the others sorted, for all tables of <= 2 rows over 3 '
+         'fields with absent fields and empty rows. Every case (~57k) is written and read back with the '
+         'real save_json/load_json, write_tsv/read_tsv (.tsv and .csv), two-column tables and parameter '
+         'files; the harness only maps tokens to values. Random deeper dictionaries (11 dtypes, rank 0..3) '
+         'and larger tables with evil string cells are judged by the trace specification.',
+    design_ref='4 (C18)', technique='TLA+/TLC model checking + exhaustive spec-to-code replay + trace validation',
+    note=_NOTE + ' Floats and strings are tokens; numeric accuracy beyond the written precision is not decided.')
 
 NOT_APPLICABLE = {}
 for e in ENGINES:
